@@ -17,6 +17,10 @@ Spec == Init /\ [][Next]_<<n, cands>>
 
 \* every candidate split is a partition of the chunk's pieces into consecutive runs: nothing is lost, doubled or invented
 Lossless == \A k \in 1..Len(SplitBy(n)) : IsPartition(SplitBy(n)[k], n)
+\* non-vacuity of Lossless: the "grouper" way of taking pieces `size` at a time, which pads the last group to full size
+\* (seeded change F-C17), is NOT a partition whenever the piece count is not a multiple of the size
+Padded(m, size) == [k \in 1..((m + size - 1) \div size) |-> <<(k - 1) * size + 1, k * size>>]
+PaddedGrouperRefuted == \A size \in {2, 3} : (n > 3 /\ n % size # 0) => ~IsPartition(Padded(n, size), n)
 \* one candidate for up to three pieces, three (singles, pairs, triples) beyond
 CandidateCount == Len(SplitBy(n)) = IF n <= 3 THEN 1 ELSE 3
 GroupSizes == n > 3 => /\ Len(SplitBy(n)[1]) = n
